@@ -806,6 +806,7 @@ func clientConfigs(prop string) []sched.Config {
 		m := map[bool]string{false: "LT", true: "ET"}[et]
 		out = append(out,
 			sched.Config{Property: prop, Name: "client-udp/" + m, Bounds: engineBounds(2, 3, 0), Horizon: 20000, Deadline: seqmc.Deadline(), DelayBounded: true, New: func() sched.Scenario { return clientUDPWorld(et) }},
+			sched.Config{Property: prop, Name: "client-udp-empty-datagram/" + m, Bounds: engineBounds(1, 2, 0), Horizon: 20000, Deadline: seqmc.Deadline(), DelayBounded: true, New: func() sched.Scenario { return clientUDPEmptyWorld(et) }},
 			sched.Config{Property: prop, Name: "client-udp-late-ops/" + m, Bounds: engineBounds(2, 3, 0), Horizon: 20000, Deadline: seqmc.Deadline(), DelayBounded: true, New: func() sched.Scenario { return clientUDPLateWorld(et) }},
 			sched.Config{Property: prop, Name: "client-enroll-fault/" + m, Bounds: []sched.Bound{{PB: 0, DB: 0}, {PB: 0, DB: 1}, {PB: 1, DB: 1}}, Horizon: 40000, Deadline: seqmc.Deadline(), DelayBounded: true, New: func() sched.Scenario { return clientEnrollFaultWorld(et) }},
 			sched.Config{Property: prop, Name: "client-two-loops/" + m, Bounds: engineBounds(1, 2, 0), Horizon: 20000, Deadline: seqmc.Deadline(), DelayBounded: true, New: func() sched.Scenario { return clientTwoLoopWorld(et) }},
